@@ -496,6 +496,25 @@ def class_pairs():
     P.append(("an array literal where a primitive is expected", "super(...) argument", al % ("{1.0f}", ""), al % ("1.0f", "")))
     for pos, bad_s, good_s in [("parenthesised gate name", "(x)(q);", "x(q);"), ("call of a call", "h(q)(q);", "h(q); h(q);"), ("parenthesised function name", "echo((f)(1.0f));", "echo(f(1.0f));")]:
         P.append(("a call through something that is not a name", pos, al % ("1.0f", bad_s), al % ("1.0f", good_s)))
+    # generic classes: a T-typed value is no primitive; a '= default' parameter has its field's whole type
+    gt = ("class Box<T> { public T v; public constructor(T v) -> Box<T> { this.v = v; return this; } public function get() -> T { return this.v; } %s }\n"
+          "function main() -> void { Box<string> b = new Box<string>(\"text\"); echo(b.get()); }")
+    for pos, bad_m, good_m in [("T into an int initialiser", "public function f() -> void { int k = this.v; }", "public function f() -> void { T k = this.v; }"),
+                               ("T returned as int", "public function f() -> int { return this.v; }", "public function f() -> T { return this.v; }"),
+                               ("T assigned to an int local", "public function f() -> void { int k = 0; k = v; }", "public function f() -> void { T k = v; k = this.v; }")]:
+        P.append(("a value typed by a type parameter where a primitive is expected", pos, gt % bad_m, gt % good_m))
+    dc = ("class Box<T> { public T v; public constructor(T v) -> Box<T> { this.v = v; return this; } }\n"
+          "class H { public Box<int> b; public constructor(Box<%s> b) -> H = default; }\nfunction main() -> void { H h = new H(new Box<%s>(%s)); echo(1); }")
+    P.append(("a '= default' constructor parameter of another type", "type arguments differ", dc % ("string", "string", "\"t\""), dc % ("int", "int", "7")))
+    # 'override' is required to replace a virtual base method (docs/bloch_class_system.md)
+    ov = ("class Shape { public constructor() -> Shape { } public virtual function area() -> int { return 0; } public function twice() -> int { return 2 * this.area(); } }\n"
+          "class Sq extends Shape { public constructor() -> Sq { super(); } public %s function area() -> int { return 4; } }\n"
+          "function main() -> void { Shape s = new Sq(); echo(s.area()); echo(s.twice()); }")
+    P.append(("a virtual method replaced without 'override'", "subclass method of the same signature", ov % "", ov % "override"))
+    ab = ("abstract class Shape { public constructor() -> Shape { } public virtual function area() -> int; }\n"
+          "class Sq extends Shape { public constructor() -> Sq { super(); } public %s function area() -> int { return 4; } }\n"
+          "function main() -> void { Shape s = new Sq(); echo(s.area()); }")
+    P.append(("a virtual method replaced without 'override'", "implementation of a bodyless virtual method", ab % "", ab % "override"))
     # a non-void function returns along every path (docs/language/syntax.md, semantics.md)
     ap = "function f(int a) -> int { %s }\nfunction main() -> void { echo(f(0)); }"
     for pos, bad_s, good_s in [("if without else", "if (a > 0) { return 1; }", "if (a > 0) { return 1; } return 2;"),
